@@ -423,9 +423,11 @@ def _explicit_filter(prog, helper, is_np):
                 ds = strip_refs(ds.a[1])
                 neg = not neg
             if ds.k == "discr" and contains_call(ds, lambda n: n.endswith("HashMap::<K, V, S, A>::get")) is not None:
-                if vals == (1,):
+                via_try = contains_call(ds, lambda n: n.endswith("Try>::branch")) is not None      # `?`: ControlFlow::Continue = 0 is "present"
+                some_v, none_v = ((0,), (1,)) if via_try else ((1,), (0,))
+                if vals == some_v or (vals == "otherwise" and some_v[0] not in allv and none_v[0] in allv):
                     got = True
-                elif vals == (0,) or vals == "otherwise":
+                elif vals == none_v or vals == "otherwise":
                     got = False
                 continue
             bv = bool_of((ds, vals, allv, ty)) if ty == "bool" else None
